@@ -464,6 +464,14 @@ def rw_R2b(rf, a, b):
 CRATE_MODS = {"request", "response", "common", "util", "client"}
 
 
+def _extra_arg(toks, close, text):
+    """text of an extra last argument for the call whose `)` is toks[close]: no second comma after a trailing one"""
+    j = close - 1
+    while j >= 0 and toks[j].kind in ("ws", "comment"):
+        j -= 1
+    return (" " if toks[j].text == "," else ", ") + text
+
+
 def _recv_chain(toks, sg, k):
     """sg[k] is the `.` before a method name: return the index (into sg) of the first token of the receiver when it is a
     plain place expression `ident(.ident)*`, else None"""
@@ -506,7 +514,7 @@ def rw_R18(rf, a, b):
             recv = L.text(toks, sg[j], sg[k - 1]).strip()
             close = L.match_close(toks, sg[k + 1])
             out.append((Edit(sg[j], sg[k + 1] + 1, "verif_wait_timeout(&%s, " % recv, ("gen", "R18")), "R18 %s:%d `%s.wait_timeout(..)` -> verif_wait_timeout(.., ghost clock)" % (rf.rel, t.line, recv)))
-            out.append((Edit(close, close, ", %s" % clk, ("gen", "R18")), None))
+            out.append((Edit(close, close, _extra_arg(toks, close, clk), ("gen", "R18")), None))
     return out
 
 
@@ -794,7 +802,7 @@ def rw_R24(rf, a, b):
             recv = L.text(toks, sg[j], sg[k - 1]).strip()
             close = L.match_close(toks, sg[k + 1])
             out.append((Edit(sg[j], sg[k + 1] + 1, "verif_sort_by(&mut %s, " % recv, ("gen", "R24")), "R24 %s:%d `%s.sort_by(..)` -> verif_sort_by(.., ghost key)" % (rf.rel, t.line, recv)))
-            out.append((Edit(close, close, ", Ghost(|e| verif_sort_key(e))", ("gen", "R24"), order=3), None))
+            out.append((Edit(close, close, _extra_arg(toks, close, "Ghost(|e| verif_sort_key(e))"), ("gen", "R24"), order=3), None))
         elif t.text == "is_nan" and toks[sg[k + 2]].text == ")":
             j = _recv_chain(toks, sg, k - 1)
             if j is None:
